@@ -4,6 +4,7 @@
 //! via the AnyTLS stream pool.
 
 use crate::client::Client;
+use crate::protocol::{Command, Frame};
 use crate::util::{AnyTlsError, Result};
 use bytes::Bytes;
 use std::sync::Arc;
@@ -126,6 +127,8 @@ async fn handle_http_proxy_connection(
                 break;
             }
         }
+        // The peer has finished sending (or this direction failed): pass the end of data on to the client
+        let _ = client_write.shutdown().await;
     });
 
     let to_proxy = tokio::spawn(async move {
@@ -147,6 +150,10 @@ async fn handle_http_proxy_connection(
                 break;
             }
         }
+        // The client has finished sending (or this direction failed): tell the peer, after the data
+        let _ = session_for_write
+            .write_control_frame(Frame::control(Command::Fin, stream_id))
+            .await;
     });
 
     let _ = tokio::join!(to_client, to_proxy);
